@@ -68,6 +68,19 @@ func genIBCCase(t *rapid.T) IBCCase {
 		op.Dir = rapid.IntRange(0, 1).Draw(t, "dir")
 		c.Ops = append(c.Ops, op)
 	}
+	if rapid.IntRange(0, 5).Draw(t, "delayed") == 0 {
+		// the repository's delayed-malicious token (every transfer secretly gives a thief an allowance on the recipient
+		// and says so in an Approval event): every conversion, the automatic one of an outgoing transfer included, must
+		// fail without effect, so the thief never finds anything to take
+		c.Token = "delayed"
+		for i := range c.Ops {
+			if c.Ops[i].K == "pause" || c.Ops[i].K == "toggle" {
+				c.Ops[i].K = "thief"
+			}
+		}
+		c.Ops = append(c.Ops, IBCOp{K: "thief"})
+		return c
+	}
 	if rapid.IntRange(0, 2).Draw(t, "pausable") == 0 {
 		c.Token = "pausable"
 		if rapid.Bool().Draw(t, "pause-scenario") {
@@ -177,6 +190,13 @@ func newIBCEnv(t *testing.T, tokenKind ...string) *ibcEnv {
 		db.SetState(c10QuirkAddr, common.BytesToHash(sender.Bytes()), common.BigToHash(big.NewInt(1_000_000_000_000)))
 		must(db.Commit())
 		e.token = c10QuirkAddr
+	} else if e.tokenKind == "delayed" {
+		nonce := e.app.EvmKeeper.GetNonce(ctx, sender)
+		dctor, err := contracts.ERC20MaliciousDelayedContract.ABI.Pack("", big.NewInt(1_000_000_000_000))
+		must(err)
+		_, err = e.app.Erc20Keeper.CallEVMWithData(ctx, sender, nil, append(append([]byte{}, contracts.ERC20MaliciousDelayedContract.Bin...), dctor...), true)
+		must(err)
+		e.token = ethcrypto.CreateAddress(sender, nonce)
 	} else {
 		nonce := e.app.EvmKeeper.GetNonce(ctx, sender)
 		_, err = e.app.Erc20Keeper.CallEVMWithData(ctx, sender, nil, append(append([]byte{}, contracts.ERC20MinterBurnerDecimalsContract.Bin...), ctor...), true)
@@ -371,6 +391,23 @@ func runIBC(st *ev.Stats, t *testing.T, c IBCCase) string {
 				pendingV.Add(pendingV, big.NewInt(op.Amt))
 				st.Class("refund-pending:" + op.Mode)
 			}
+		case "thief":
+			// the thief spends whatever allowance the token secretly gave it on the module's escrow
+			thief := common.HexToAddress("0x4dC6ac40Af078661fc43823086E1513635Eeab14")
+			take := bal(e.token, moduleHex)
+			if c.Token != "delayed" || take.Sign() == 0 {
+				continue
+			}
+			cctx, write := e.H.GetContext().CacheContext()
+			if app.AccountKeeper.GetAccount(cctx, sdk.AccAddress(thief.Bytes())) == nil {
+				app.AccountKeeper.SetAccount(cctx, app.AccountKeeper.NewAccountWithAddress(cctx, sdk.AccAddress(thief.Bytes())))
+			}
+			if _, err := app.Erc20Keeper.CallEVM(cctx, abi, thief, e.token, true, "transferFrom", moduleHex, thief, take); err == nil {
+				write()
+				ok = true
+				st.Class("thief-drained-escrow")
+			}
+			e.coord.CommitNBlocks(e.H, 1)
 		case "pause":
 			if c.Token != "pausable" {
 				continue
